@@ -557,7 +557,11 @@ def _refine_ring(rnd, ring, allow_closed_arc=True):
             pts[-1] = pts[0]
         for i in range(k):
             # the middle control point anywhere in the middle 40 % of the piece
-            tm = cuts[i] + (cuts[i + 1] - cuts[i]) * (0.5 if rnd.random() < 0.5 else rnd.uniform(0.3, 0.7))
+            # ... or, a third of the time, anywhere on it: a three point arc is defined by ANY
+            # interior point, also one close to an end of a long (> 180 degree) piece
+            u = rnd.random()
+            frac = 0.5 if u < 0.4 else (rnd.uniform(0.3, 0.7) if u < 0.7 else rnd.uniform(0.06, 0.94))
+            tm = cuts[i] + (cuts[i + 1] - cuts[i]) * frac
             out.append(("A", pts[i], _arc_point_exact(cx, cy, r, tm), pts[i + 1]))
     return out
 
